@@ -94,8 +94,86 @@ macro_rules! run_kind {
     }};
 }
 
+/// `UnitHeader::range`, `range_from`, `range_to`: views of the unit's bytes by unit offset.
+fn unit_ranges_sub() -> Sub {
+    Sub::new(
+        "unit-header-range-api",
+        3,
+        "a .debug_info section of two version 4 units with 9 bytes of entries each, under EndianSlice, EndianRcSlice and EndianArcSlice: for both units and every pair of unit offsets a, b from 2 before the first entry byte to 2 past the unit's end, UnitHeader::range(a..b), range_from(a..) and range_to(..b) give exactly the section bytes of that range (zero-copy: right offset in the section) when both offsets lie inside the entries, and an error otherwise (a > b may panic)",
+        move |ctx: &mut Ctx, i| {
+            // two units: length 4 + version 2 + abbrev offset 4 + address size 1 = 11 header bytes, 9 entry bytes
+            let mut sec: Vec<u8> = vec![];
+            for u in 0..2u8 {
+                sec.extend_from_slice(&[16, 0, 0, 0, 4, 0, 0, 0, 0, 0, 8]);
+                sec.extend((0..9u8).map(|k| 0x40 + 0x10 * u + k));
+            }
+            macro_rules! go {
+                ($name:expr, $reader:expr) => {{
+                    let di = gimli::DebugInfo::from($reader);
+                    let mut it = di.units();
+                    let mut un = 0usize;
+                    while let Ok(Some(h)) = it.next() {
+                        let uoff = un * 20;
+                        un += 1;
+                        let (hs, total) = (11usize, 20usize);
+                        let inb = |x: usize| x >= hs && x - hs < total - hs;
+                        for a in hs - 2..=total + 2 {
+                            for b in hs - 2..=total + 2 {
+                                for api in 0..3 {
+                                    if (api == 1 && b != hs - 2) || (api == 2 && a != hs - 2) {
+                                        continue;
+                                    }
+                                    let what = match api {
+                                        0 => format!("{} unit at {:#x} range({}..{})", $name, uoff, a, b),
+                                        1 => format!("{} unit at {:#x} range_from({}..)", $name, uoff, a),
+                                        _ => format!("{} unit at {:#x} range_to(..{})", $name, uoff, b),
+                                    };
+                                    ctx.eval(1);
+                                    let r = guard(|| {
+                                        let v = match api {
+                                            0 => h.range(gimli::UnitOffset(a)..gimli::UnitOffset(b)),
+                                            1 => h.range_from(gimli::UnitOffset(a)..),
+                                            _ => h.range_to(..gimli::UnitOffset(b)),
+                                        };
+                                        v.map(|r| (r.len(), r.to_slice().map(|c| c.to_vec()).unwrap_or_default())).map_err(|e| format!("{:?}", e))
+                                    });
+                                    let want: Option<Vec<u8>> = match api {
+                                        0 if inb(a) && inb(b) && a <= b => Some(sec[uoff + a..uoff + b].to_vec()),
+                                        1 if inb(a) => Some(sec[uoff + a..uoff + total].to_vec()),
+                                        2 if inb(b) => Some(sec[uoff + hs..uoff + b].to_vec()),
+                                        _ => None,
+                                    };
+                                    match (r, want) {
+                                        (Err(_), None) | (Ok(Err(_)), None) => ctx.outcome("unit-ranges:refused"),
+                                        (Err(p), Some(_)) => return ctx.fail_panic("UnitHeader::range", &p, what),
+                                        (Ok(Ok((len, bytes))), Some(w)) if len == w.len() && bytes == w => ctx.outcome("unit-ranges:view-ok"),
+                                        (Ok(other), w) => {
+                                            ctx.fail("UnitHeader::range", "view", "wrong-bytes", format!("{}: got {:?}, expected {:?}", what, other, w));
+                                            return;
+                                        }
+                                    }
+                                }
+                            }
+                        }
+                    }
+                    if un != 2 {
+                        ctx.fail("UnitHeader::range", "setup", "units-not-read", format!("{}: {} units", $name, un));
+                        return;
+                    }
+                    ctx.nontriv(1);
+                }};
+            }
+            match i {
+                0 => go!("EndianSlice", EndianSlice::new(&sec[..], LittleEndian)),
+                1 => go!("EndianRcSlice", EndianRcSlice::new(Rc::from(&sec[..]), LittleEndian)),
+                _ => go!("EndianArcSlice", EndianArcSlice::new(Arc::from(&sec[..]), LittleEndian)),
+            }
+        },
+    )
+}
+
 pub fn subs() -> Vec<Sub> {
-    vec![Sub::new(
+    vec![unit_ranges_sub(), Sub::new(
         "inherent-range-api",
         3,
         "EndianSlice, EndianRcSlice and EndianArcSlice over an 8-byte buffer: on every window [s, e) of the buffer, range(a..b), range_from(a..) and range_to(..b) for every a, b in 0..=len+2: in-bounds requests give a view of exactly those bytes at that offset, out-of-bounds requests panic (documented) and never hand back a view; an inverted range inside the window may panic or give an empty view",
